@@ -41,26 +41,35 @@ def _no_chars(t, chars):
     return z3.And(*[z3.Not(z3.Contains(t, z3.StringVal(c))) for c in chars])
 
 
-def mproj(t, assume=None):
+def mproj(t, assume=None, _memo=None, _top=True):
     """structural markup projection of a z3 string term.  `assume` (callable on z3 facts) receives, for every leaf x
     that is left to the uninterpreted h, the true fact  h(x) = "" <=> x contains no markup character  (it keeps
     counter-models realistic; it is not needed for proofs)."""
-    t = simp(t)
+    if _memo is None:
+        _memo = {}
+    if _top:
+        t = simp(t)
+    key = t.get_id()
+    if key in _memo:
+        return _memo[key]
     if z3.is_string_value(t):
-        return z3.StringVal("".join(c for c in t.as_string() if c in MARKUP))
-    k = t.decl().kind()
-    if k == z3.Z3_OP_SEQ_CONCAT:
-        parts = [mproj(c, assume) for c in t.children()]
-        return simp(z3.Concat(*parts)) if len(parts) > 1 else parts[0]
-    if k == z3.Z3_OP_INT_TO_STR:
-        return z3.StringVal("")  # decimal digits only
-    if k == z3.Z3_OP_ITE:
-        c, a, b = t.children()
-        return simp(z3.If(c, mproj(a, assume), mproj(b, assume)))
-    r = _h()(t)
-    if assume is not None:
-        assume((r == z3.StringVal("")) == _no_chars(t, MARKUP))
-    return r
+        r = z3.StringVal("".join(c for c in t.as_string() if c in MARKUP))
+    else:
+        k = t.decl().kind()
+        if k == z3.Z3_OP_SEQ_CONCAT:
+            parts = [mproj(c, assume, _memo, False) for c in t.children()]
+            r = z3.Concat(*parts) if len(parts) > 1 else parts[0]
+        elif k == z3.Z3_OP_INT_TO_STR:
+            r = z3.StringVal("")  # decimal digits only
+        elif k == z3.Z3_OP_ITE:
+            c, a, b = t.children()
+            r = z3.If(c, mproj(a, assume, _memo, False), mproj(b, assume, _memo, False))
+        else:
+            r = _h()(t)
+            if assume is not None:
+                assume((r == z3.StringVal("")) == _no_chars(t, MARKUP))
+    _memo[key] = r
+    return simp(r) if _top else r
 
 
 def _on(it):
@@ -162,7 +171,12 @@ def _str_encode_proj(it, s, *a, **k):
         if enc in ("utf-8", "utf8", "ascii", "latin-1", "latin1"):
             it.ex.note("lib", "str.encode (exact on str(int): decimal digits are ASCII)")
             return SBytes(s.t)
-    r = _default_str_encode(it, s, *a, **k)
+    if _on(it) and s.concrete() is None:
+        # markup_proj scenarios: the base model (uninterpreted encode + ASCII identity) is all that is needed; other extension
+        # modules' codec refinements (which run solver queries on every encode) are bypassed
+        r = _lib._encode(it, s, *a, **k)
+    else:
+        r = _default_str_encode(it, s, *a, **k)
     if _on(it) and s.concrete() is None:
         enc = (a[0].concrete() if a else (k["encoding"].concrete() if "encoding" in k else "utf-8")).lower().replace("_", "-")
         if enc in ("utf-8", "utf8"):
@@ -466,3 +480,74 @@ def f_re_sub(it, pattern, repl, string, *a, **k):
     it.ex.note("lib", "re.sub('[\\t ]*,[\\t ]*', ',', s) (uninterpreted + exact preimages of the listed literals)")
     it.ex.note("assumed", "re.sub('[\\t ]*,[\\t ]*', ',', s) == L  <=>  s is L with optional blanks around each comma (for blank-free literals L)")
     return SStr(r)
+
+
+# =====================================================================================================================
+# native oracles for the uninterpreted functions used by C01/C02/C12 (lib.UF_ORACLES): only used to pick replayable
+# counter-models / CPython conformance samples (scenario option `candidates`), never for proving.
+
+def _l1b(s: str) -> bytes:
+    return s.encode("latin-1", "replace")
+
+
+def _as_text(b: bytes) -> str:
+    return b.decode("latin-1")
+
+
+def _o_lower(s):
+    return _as_text(_l1b(s).lower()) if all(ord(c) < 256 for c in s) else s.lower()
+
+
+def _o_upper(s):
+    return _as_text(_l1b(s).upper()) if all(ord(c) < 256 for c in s) else s.upper()
+
+
+_TE_C = re.compile(rb"(?i)(?:(?:compress|deflate|gzip)[ \t]*,[ \t]*)?chunked\Z")
+_TE_P = re.compile(rb"(?i)(?:compress|deflate|gzip|identity)\Z")
+_CL_ACC = re.compile(rb"^(?:0|[1-9][0-9]*)$")
+
+
+def _o_re_match(key, s):
+    import ast
+    pat_src, flags = key.rsplit("/", 1)
+    pat = ast.literal_eval(pat_src)
+    subj = _l1b(s) if isinstance(pat, bytes) else s
+    return re.compile(pat, int(flags)).match(subj) is not None
+
+
+def _o_int_ok(s):
+    try:
+        int(s)
+        return not (len(s) > 0 and all(c in "0123456789" for c in s)) or True
+    except ValueError:
+        return False
+
+
+def _o_int(s):
+    try:
+        return int(s)
+    except ValueError:
+        return 0
+
+
+_ORACLES = {
+    "lower": _o_lower,
+    "upper": _o_upper,
+    "TEc": lambda s: _TE_C.match(_l1b(s)) is not None,
+    "TEp": lambda s: _TE_P.match(_l1b(s)) is not None,
+    "CLacc": lambda s: _CL_ACC.match(_l1b(s)) is not None,
+    "re_match": _o_re_match,
+    "hex_lower": lambda n: "%x" % n if n >= 0 else "-%x" % -n,
+    "int_parsable_nondigit": _o_int_ok,
+    "int_parse_nondigit": _o_int,
+    "re_sub_ows_comma": lambda s: re.sub(r"[\t ]*,[\t ]*", ",", s),
+    "markup_proj": lambda s: "".join(c for c in s if c in MARKUP),
+    "quote_proj": lambda s: "".join(c for c in s if c in "\"'"),
+    "html_escape": lambda s: html.escape(s),
+    "html_escape_noquote": lambda s: html.escape(s, False),
+    "textwrap_dedent": lambda s: textwrap.dedent(s),
+    "strip": lambda s: s.strip(),
+    "encode_utf8_replace": lambda s: _as_text(s.encode("utf8", "replace")),
+}
+for _k, _v in _ORACLES.items():
+    _lib.UF_ORACLES.setdefault(_k, _v)
